@@ -1,29 +1,48 @@
 (* C13 Background maintenance stays alive: rotation continues and close terminates. Statements only. *)
 Require Import Pearl.Base.Prelude Pearl.Storage.Model Pearl.Storage.Spec Pearl.Storage.Inv Pearl.Storage.InvProofs
-               Pearl.Storage.WorkerProofs.
+               Pearl.Storage.Theorems Pearl.Storage.WorkerProofs.
 
 (* In every state of an open storage, EVERY operation of the model -- data operations, direct lifecycle
-   calls whether applicable or not, force_update with any predicate, free_excess, dump completion --
-   leaves the worker alive, EXCEPT a background create/close/restore request made when it cannot apply
-   (and the end of the session). The exception is exactly finding F1 (C13_inapplicable_request_kills). *)
+   calls whether applicable or not, background create/close/restore requests whether applicable or not,
+   force_update with any predicate, free_excess, dump completion -- leaves the worker alive; only the end
+   of the session (close, drop) stops it. Before commit 62103db of the code a background request made when
+   it cannot apply was an exception (finding F1) and the statement carried `~ inapplicable s o`. *)
 Theorem C13_worker_stays_alive :
   forall (K : N) (cfg : config) (s : storage) (o : op),
-    s_open s = true -> s_alive s = true -> ~ inapplicable s o -> ~ ends_session o ->
+    s_open s = true -> s_alive s = true -> ~ ends_session o ->
     s_alive (fst (step_q K cfg s o)) = true.
 Proof. exact alive_preserved. Qed.
 
-(* REFUTATION of the unconditional statement: the property says "including background create, close and
-   restore requests made when they cannot apply"; in the faithful model each of them kills the worker,
-   silently (the caller gets no error), and it never comes back within the session. *)
-Theorem C13_inapplicable_request_kills :
+(* "including background create, close and restore requests made when they cannot apply": such a request
+   leaves the worker alive and the log as it was. (Before commit 62103db of the code this was refuted,
+   finding F1: each of them killed the worker, silently, for the rest of the session.) *)
+Theorem C13_inapplicable_request_is_harmless :
   forall (K : N) (cfg : config) (s : storage) (o : op),
-    s_open s = true -> s_alive s = true -> inapplicable s o -> s_alive (fst (step_q K cfg s o)) = false.
-Proof. exact inapplicable_kills. Qed.
+    s_open s = true -> s_alive s = true -> inapplicable s o ->
+    s_alive (fst (step_q K cfg s o)) = true /\ abs (fst (step_q K cfg s o)) = abs s.
+Proof. exact inapplicable_harmless. Qed.
 
+(* sharper: before the implicit quiesce the state is the one the request was made in, except that a close
+   request still asks for the index dumps (s_dump_req), as every close request does *)
+Theorem C13_inapplicable_request_changes_nothing :
+  forall (K : N) (cfg : config) (s : storage) (o : op),
+    s_open s = true -> inapplicable s o ->
+    fst (step K cfg s o) = match o with OBgClose => request_dump s | _ => s end.
+Proof. exact inapplicable_step. Qed.
+
+(* true as before, but since the repair of F1 about no reachable state (C13_alive_after_every_history):
+   within a session nothing stops the worker *)
 Theorem C13_dead_stays_dead :
   forall (K : N) (cfg : config) (s : storage) (o : op),
     s_open s = true -> s_alive s = false -> s_alive (fst (step_q K cfg s o)) = false.
 Proof. exact dead_stays_dead. Qed.
+
+(* after EVERY history, a storage that is open has a live worker: open starts it (do_open), only close and
+   drop stop it (closed_state), and they end the session. No side condition. *)
+Theorem C13_alive_after_every_history :
+  forall (K : N) (cfg : config) (ops : list op),
+    s_open (reach K cfg ops) = true -> s_alive (reach K cfg ops) = true.
+Proof. exact alive_after_every_history. Qed.
 
 (* rotation: with a live worker, a write that leaves the (aged) active blob full switches to a fresh blob *)
 Theorem C13_rotation_happens :
@@ -51,8 +70,10 @@ Theorem C13_close_returns :
 Proof. exact close_returns. Qed.
 
 Print Assumptions C13_worker_stays_alive.
-Print Assumptions C13_inapplicable_request_kills.
+Print Assumptions C13_inapplicable_request_is_harmless.
+Print Assumptions C13_inapplicable_request_changes_nothing.
 Print Assumptions C13_dead_stays_dead.
+Print Assumptions C13_alive_after_every_history.
 Print Assumptions C13_rotation_happens.
 Print Assumptions C13_dumps_complete.
 Print Assumptions C13_close_returns.
